@@ -1,3 +1,4 @@
+import Ebu.Spec.Flow
 import Ebu.Model.Upcast
 import Ebu.Proofs.Upcast
 /-!
@@ -55,5 +56,12 @@ example :
     (apply [⟨1, 2, 2, false, 7⟩, ⟨2, 3, 3, true, 8⟩] true [5] 1).data = [5] ∧
     (apply [⟨1, 2, 2, false, 7⟩, ⟨2, 3, 3, true, 8⟩] true [5] 1).errCalls = [(2, [5, 7])] := by
   decide
+
+
+/-! ### obligations on the control flow of the CURRENT source (`Ebu/Generated/Flow.lean`, regenerated from /repo on every run) -/
+
+/-- OBLIGATION: `apply` runs the whole chain under the registry's read lock (one registry state per chain), reports a
+failing step to the error handler exactly there (once), and advances data and type together only after both guards -/
+theorem flow_apply_shape : Ebu.Flow.applyShape = true := by decide +kernel
 
 end Ebu.Props.C17
